@@ -27,6 +27,6 @@ Definition gen_QueueDeleteOptions_into_delete (self : val) (queue : val) (nowait
 
 (* ---- /repo/src/exchange.rs :: ExchangeDeclareOptions.into_declare ---- *)
 Definition gen_ExchangeDeclareOptions_into_declare (self : val) (type_ : val) (name : val) (passive : val) (nowait : val) : val :=
-(VR [("ticket", (VN 0)); ("exchange", name); ("passive", passive); ("type_", (ext "to_string" [(ext "as_ref" [type_])])); ("durable", (v_field "durable" self)); ("auto_delete", (v_field "auto_delete" self)); ("internal", (v_field "internal" self)); ("nowait", nowait); ("arguments", (v_field "arguments" self))]).
+(VR [("ticket", (VN 0)); ("exchange", name); ("passive", passive); ("type_", type_); ("durable", (v_field "durable" self)); ("auto_delete", (v_field "auto_delete" self)); ("internal", (v_field "internal" self)); ("nowait", nowait); ("arguments", (v_field "arguments" self))]).
 
 End Gen.
